@@ -22,7 +22,15 @@ ALPHABETS = {
     "color": ["rgb", "(", ")", ",", "1", "255", "256", "#", "ff", "color", "²", "٣", "４", "-", "+", ".", " ", "rgb(", ",,", "0x", "#ff0000", "red"],
     "style": ["bold", "not", "on", "link", "red", "#ff0000", "rgb(1,2,3)", "color(5)", "default", "none", "b", "uu", "(", "²", "x", "rgb(,,)", "color(300)", "rgb(1,2)"],
     "markup": ["[", "]", "\\", "/", "=", "bold", "red", "#", ":smile:", "link", " ", "\n", "[/]", "[rgb(,,)]", "[/bold]"],
-    "ansi": ["\x1b", "[", "]", "m", ";", "0", "1", "38", "48", "5", "2", "255", "999", "²", "٣", "8;", "\\", "\x07", "\r", "\n", "id=1", "http://x", "\x1b[", "\x1b]8;;"],
+    "ansi": ["\x1b", "[", "]", "m", ";", "0", "1", "38", "48", "5", "2", "255", "999", "²", "٣", "8;", "\\", "\x07", "\r", "\n", "id=1", "http://x", "\x1b[", "\x1b]8;;",
+             "\x1b]8;", "\x1b\\", "\x1b]"],
+}
+# strings that are too long for the token product but matter (Python refuses int() of more than 4300 digits)
+SPECIALS = {
+    "color": ["rgb(" + "9" * 4400 + ",1,1)", "color(" + "9" * 4400 + ")", "#" + "f" * 4400],
+    "style": ["on rgb(" + "9" * 4400 + ",1,1)", "bold " * 3000, "link " + "x" * 10000],
+    "markup": ["[" * 3000, "[rgb(" + "9" * 4400 + ",1,1)]x", "\\" * 4001 + "[b]"],
+    "ansi": ["\x1b[" + "9" * 4400 + "m", "\x1b[38;5;" + "9" * 4400 + "mx", "\x1b[38;2;" + "1" * 4400 + ";2;3mx", "\x1b]8;" + "9" * 4400 + "\x1b\\", "\x1b[" + ";" * 5000 + "m"],
 }
 ENTRY = {
     "color": ["Color.parse"],
@@ -147,11 +155,12 @@ class Tokens(Part):
         if shard == 0:
             for family in ALPHABETS:
                 for entry in ENTRY[family]:
-                    n += 1
-                    try:
-                        run_entry(entry, "")
-                    except SutError as e:
-                        found.setdefault("C14/exc/%s/%s" % (entry, e.bucket), ("", entry, repr(e.exc)))
+                    for sp in [""] + SPECIALS[family]:
+                        n += 1
+                        try:
+                            run_entry(entry, sp)
+                        except SutError as e:
+                            found.setdefault("C14/exc/%s/%s" % (entry, e.bucket), (sp, entry, repr(e.exc)[:300]))
         stats.evaluations += n
         stats.nontrivial_count_distinct += nt
         if not stats.capped:
@@ -161,7 +170,7 @@ class Tokens(Part):
             if known.match(sig):
                 stats.excluded_known[known.match(sig)["id"]] = stats.excluded_known.get(known.match(sig)["id"], 0) + 1
                 continue
-            stats.found[sig] = {"spec": {"entry": entry, "s": s}, "clause": "undocumented-exception", "detail": "%s(%r) raised %s" % (entry, s, detail), "size": len(s), "part": self.name}
+            stats.found[sig] = {"spec": {"entry": entry, "s": s}, "clause": "undocumented-exception", "detail": "%s(%r) raised %s" % (entry, s[:200], detail), "size": len(s), "part": self.name}
 
     def replay(self, spec, ctx):
         try:
